@@ -285,6 +285,8 @@ class DirectCollocation(SamplingMethod):
                 value = ca.evalf(expr)
                 # Row vector if vector
                 if value.is_column() and var.is_scalar(): value = value.T
+                # Scalar guess for a vector-valued state: repeated to fit the shape of var
+                if is_states and value.is_scalar() and not var.is_scalar(): value = repmat(value, var.shape[0], 1)
                 if is_states:
                     if var.numel()*(self.N)==value.numel() or var.numel()*(self.N+1)==value.numel():
                         # column k of the guess applies to every integrator point/root of control interval k,
